@@ -269,6 +269,17 @@ def child_main(proc, sockpath, cache_dir, forms, max_polls, opt_flags):
     os.unlink = one("remove", os.unlink)
     os.remove = one("remove", os.remove)
 
+    real_print = builtins.print
+
+    def print_proxy(*a, **kw):
+        # fault "echo": the request was made with cffi_verbose=True and echoing the build log fails
+        # (e.g. stdout is a pipe whose reader has gone)
+        if st["fault"] == "echo" and sys._getframe(1).f_globals.get("__name__", "") == "ffcx.codegeneration.jit":
+            raise BrokenPipeError(32, "injected: broken pipe while echoing the build log")
+        return real_print(*a, **kw)
+
+    builtins.print = print_proxy
+
     real_sleep = time.sleep
 
     def sleep_proxy(secs):
@@ -361,7 +372,8 @@ def child_main(proc, sockpath, cache_dir, forms, max_polls, opt_flags):
             if variant == "form":
                 objs, mod, _ = jit.compile_forms(
                     [obj], options={"scalar_type": "float64"}, cache_dir=cache_dir,
-                    timeout=max_polls, cffi_extra_compile_args=list(opt_flags), cffi_libraries=bad_libs)
+                    timeout=max_polls, cffi_extra_compile_args=list(opt_flags), cffi_libraries=bad_libs,
+                    cffi_verbose=(f == "echo"))
                 ffi = mod.ffi
                 integral = objs[0].form_integrals[0]
                 A = np.zeros((2, 2))
@@ -371,7 +383,8 @@ def child_main(proc, sockpath, cache_dir, forms, max_polls, opt_flags):
             else:
                 objs, mod, _ = jit.compile_expressions(
                     [obj], options={"scalar_type": "float64"}, cache_dir=cache_dir,
-                    timeout=max_polls, cffi_extra_compile_args=list(opt_flags), cffi_libraries=bad_libs)
+                    timeout=max_polls, cffi_extra_compile_args=list(opt_flags), cffi_libraries=bad_libs,
+                    cffi_verbose=(f == "echo"))
                 ffi = mod.ffi
                 A = np.zeros(2)
                 w = np.array([3.0, 1.0])          # f(X) = 3 (1 - X) + X on the reference interval
@@ -790,7 +803,7 @@ def run_random(forms, job):
             if what == "req":
                 f = "none"
                 if fails < job["max_fails"] and rnd.random() < job.get("p_fail", 0.3):
-                    f = rnd.choice(["codegen", "cc", "link", "marker"])
+                    f = rnd.choice(["codegen", "cc", "link", "marker", "echo"])
                     fails += 1
                 reqs += 1
                 s.request(p, rnd.choice(keys), f)
